@@ -159,6 +159,7 @@ func (e *Exec) mergeStates(fs []*State, basePC int) (*State, bool) {
 		disj = e.c.Or(disj, c)
 	}
 	out.pc = append(append([]*Term(nil), base.pc[:basePC]...), disj)
+	// base's model satisfies base.pc, hence the disjunction
 	return &out, true
 }
 
